@@ -324,3 +324,105 @@ def independence_job(job_id, spec, variant, n, B, pos, source_filter=None):
     if not ctx.witness and not ctx.cex:
         return ctx.result(E, w, status="error", error="vacuous harness: no complete path is satisfiable")
     return ctx.result(E, w)
+
+
+# =============================================================================================== C05
+NEEDS_TRIANGLE = {"op", "mtvrp", "cvrptw"}
+DOC_MARGIN = {"op": z3.RealVal("-1/1000000")}  # OP documents a 1e-6 safety margin on the length budget
+
+
+def reach_job(job_id, spec, variant, n, source_filter=None):
+    """The mask hides no feasible solution: an ARBITRARY action sequence (not constrained by the mask) is assumed
+    to be a feasible solution in the documented canonical form (independent oracle); driving the real environment
+    along it, the solver must show every action was offered by the mask and the environment is done exactly when
+    the solution is complete.  Unsat => every feasible solution, hence an optimal one, is reachable."""
+    sp = EV.SPECS[spec]
+    E = explore.EXP
+    ctx = core.Ctx(job_id)
+    w = world.make_world(source_filter=source_filter)
+    env = sp.make_env(w, n, variant)
+    Tb = sp.bound(n, variant)
+    NA = sp.n_actions(n, variant)
+    B = 1
+    ctx.bounds = {"env": spec, "variant": variant, "n": n, "B": 1, "T": Tb}
+    ctx.assumptions.add("the action sequence is a feasible solution by the independent oracle, in canonical form (no pointless depot stays / zero deliveries), padded with nothing; it is NOT assumed to be mask-admitted")
+    if spec in NEEDS_TRIANGLE:
+        ctx.assumptions.add("triangle inequality instantiated on the distance applications (true of the Euclidean norm)")
+    if spec in DOC_MARGIN:
+        ctx.assumptions.add("OP: solutions within 1e-6 of the length budget are outside the claim (margin documented in the environment)")
+    mg = DOC_MARGIN.get(spec, 0.0)
+
+    def harness():
+        dist.TRIANGLE = spec in NEEDS_TRIANGLE
+        EV.MARGIN[0] = mg
+        E.assume(MARGIN_VAR == 0)
+        src = EV.Src(E, ctx)
+        inst = sp.instance(src, B, n, variant)
+        orc = sp.oracle(inst.rows[0], n, variant)
+        st = orc.start()
+        acts, comp = [], []
+        for t in range(Tb):
+            a = z3.Int(f"a{t}")
+            E.assume(z3.And(a >= 0, a < NA))
+            c = orc.complete(st)
+            comp.append(c)
+            orc.step(st, a, s_not(c), t)
+            acts.append([a])
+        comp.append(orc.complete(st))
+        E.assume(_bool(comp[-1]))  # the solution completes within the step bound
+        for name, v in st.viol.items():
+            E.assume(_bool(s_not(v)))  # feasible and canonical
+        EV.MARGIN[0] = 0.0
+        td = env.reset(inst.td)
+        used = []
+
+        def cex_builder(E_, neg):
+            reps = []
+            for label, m in candidate_models(E_, neg, inst):
+                k = len(used)
+                reps.append(dict(model_replay(sp, n, variant, inst, acts[: max(k, 1)], B, m), model_kind=label, mode="C05", upto=k))
+            return reps
+
+        for t in range(Tb + 1):
+            done = _flat_done(td, B)[0]
+            ctx.states += 1
+            if E.branch(comp[t]):
+                # solution complete: the env must be done, possibly after the explicit final return to the depot
+                if not E.branch(done):
+                    mask = td["action_mask"]
+                    ctx.prove(E, f"{spec}[{variant}]: after the last customer the final return to the depot is offered", mask.a[0][0], cex_builder)
+                    td.set("action", T.Tensor([0], T.int64))
+                    td = env.step(td)["next"]
+                    ctx.prove(E, f"{spec}[{variant}]: environment reports done once the solution is complete", _flat_done(td, B)[0], cex_builder)
+                break
+            if t == Tb:
+                raise PathAbort()
+            ctx.prove(E, f"{spec}[{variant}] t={t}: environment is not done while the solution is incomplete", s_not(done), cex_builder)
+            mask = td["action_mask"]
+            used.append(t)
+            ctx.prove(E, f"{spec}[{variant}] t={t}: the next action of a feasible solution is offered by the mask", admitted(acts[t][0], list(mask.a[0])), cex_builder)
+            E.assume(_bool(s_not(done)))
+            td.set("action", T.Tensor(acts[t], T.int64))
+            try:
+                td = env.step(td)["next"]
+            except ENV_ERRORS as e:
+                ctx.prove(E, f"{spec}[{variant}] t={t}: stepping along a feasible solution must not raise ({type(e).__name__}: {str(e)[:80]})", False, cex_builder)
+                raise PathAbort()
+            ctx.transitions += 1
+            E.obligations = []
+        if len(ctx.witness) < 1:
+            wm = witness_model(E, inst)
+            if wm is not None:
+                k = len(used)
+                ctx.witness.append(dict(model_replay(sp, n, variant, inst, acts[:k], B, wm), mode="witness"))
+
+    try:
+        E.run(harness)
+    except explore.Inconclusive as e:
+        return ctx.result(E, w, status="inconclusive", error=str(e))
+    finally:
+        EV.MARGIN[0] = 0.0
+        dist.TRIANGLE = False
+    if not ctx.witness and not ctx.cex:
+        return ctx.result(E, w, status="error", error="vacuous harness: no feasible canonical solution exists under the assumptions")
+    return ctx.result(E, w)
